@@ -680,13 +680,30 @@ def work_generated(ctx, seed):
         file_and_convert(ctx, b, 'gen:%d' % seed, rng)
 
 
+def work_patho(ctx, k):
+    """every labelled pathological (valid) shape - unsorted fused shells, shared and re-spelled primitives, cancelling and
+    equal columns, block-general contractions ... - written and read back in every write+read format and through the modelled layouts"""
+    pool = [f for f in gen.PATHOLOGICAL if f not in (gen.patho_dup_function, gen.patho_contraction_on_free)]
+    f = pool[k % len(pool)]
+    b = f(random.Random(ctx.seed * 37 + k))
+    label = 'patho:%s:%d' % (f.__name__, k)
+    for fmt in rw_formats():
+        roundtrip(ctx, b, fmt, label, 'patho:' + f.__name__)
+    for lay in (nwchem_layout, g94_layout, tm_layout, lmol_layout, vlx_layout, molcas_layout):
+        lay(ctx, b, label)
+    for wf in WHOLE_FORMATS:
+        whole_file(ctx, b, label, wf)
+    for mf in MORE_FORMATS:
+        more_format(ctx, b, label, mf)
+
+
 def run(ctx):
-    ctx.rule = ('for store basis sets (element subsets) and generated dictionaries (plain, l = 7..12, ECP-only, ECP with a momentum gap, ECP of a single potential) x '
+    ctx.rule = ('for store basis sets (element subsets) and generated dictionaries (plain, l = 7..12, ECP-only, ECP with a momentum gap, ECP of a single potential, every labelled pathological shape) x '
                 'every format with both a writer and a reader: write then read back; the read-back must hold exactly the same elements, '
                 'contracted functions (exact decimal values), ECP potentials and electron counts, or raise; gaussian94, nwchem (and '
                 'turbomole with electron shells) must succeed; .bz2 files with extension autodetection; conversion A -> B vs direct '
                 'export; the matrix printer and the numeric-table parsers are compared with the extracted model on random tables')
-    ctx.trusted.append('the layout code of the writers and readers other than printing.write_matrix and the numeric-table parsers is a black box: for it the decision is write / read-back exploration compared by exact value')
+    ctx.trusted.append('the layout code of the crystal writer / reader pair is not modelled for the read direction (black box: write / read-back exploration compared by exact value); the other thirteen pairs are modelled (coq/Model) and compared with the code on every run')
     matrix_cases(ctx, ctx.rng)
     md = store.metadata()
     if ctx.thorough():
@@ -699,6 +716,7 @@ def run(ctx):
         pairs = [(n, md[n]['latest_version']) for n in names]
     store.parallel(ctx, work_store, pairs)
     store.parallel(ctx, work_generated, [ctx.seed * 67 + i for i in range(ctx.budget(60, 3000))])
+    store.parallel(ctx, work_patho, list(range(len(gen.PATHOLOGICAL) * ctx.budget(1, 12))))
 
 
 def replay(ctx, rec):
